@@ -15,7 +15,7 @@ import (
 func init() {
 	register(&Rule{ID: "C19", Run: runC19, Controls: controlsC19,
 		Explanation: "Structural necessary conditions of 'replicas are coordinated independently and fail independently', decided on the cycle function and everything it reaches inside pkg/coordinator: " +
-			"R19.1 failure isolation: no return or panic inside the replica loop; " +
+			"R19.1 failure isolation: no return or panic inside the replica loop, and no method call on an interface value that is nil on every path to the call (in the loop body and in everything it reaches in the package); " +
 			"R19.2 no loop-carried planning state: the loop header's phis are the range index and the merged status view only, and nothing reachable from the loop body writes a Coordinator field, a map reached through one, or a package variable (metrics objects excepted); " +
 			"R19.3 the merged view is write-only within the cycle: the Coordinator field holding it is read by no function reachable from the cycle, and the local accumulator flows only into the merge call and the final store; " +
 			"R19.4 every scale request and shard listing of an iteration is addressed to that iteration's own replica manager, in the iteration itself (not from a goroutine that outlives it). " +
@@ -117,6 +117,30 @@ func runC19(p *engine.Prog, r *engine.Report) {
 				probs = append(probs, "return inside the replica loop at "+p.Rel(last.Pos()))
 			case *ssa.Panic:
 				probs = append(probs, "panic inside the replica loop at "+p.Rel(last.Pos()))
+			}
+		}
+		// a method call on an interface value that is nil on every path to it panics just the same
+		for f := range reachableInPkg(c, fn) {
+			ffi := p.Info(f)
+			for _, in := range allInstrs(f) {
+				ci, ok := in.(ssa.CallInstruction)
+				if !ok || !ci.Common().IsInvoke() {
+					continue
+				}
+				if f == fn && !(bodyEntry != nil && (bodyEntry == in.Block() || bodyEntry.Dominates(in.Block()))) {
+					continue
+				}
+				t := ffi.T(ci.Common().Value).S
+				if t == "nil" {
+					probs = append(probs, "method call on a nil interface at "+p.Rel(in.Pos()))
+					continue
+				}
+				if !strings.Contains(strings.Join(ffi.AllAtoms(), " "), t) {
+					continue
+				}
+				if ok, _ := ffi.View(engine.EqAtom(t, "nil")).Implies(in.Block(), engine.EqAtom(t, "nil")); ok {
+					probs = append(probs, "method call on "+short(t)+", which is nil on every path to "+p.Rel(in.Pos())+" (a panic inside the cycle ends it for every replica)")
+				}
 			}
 		}
 		r.Check(len(probs) == 0, "R19.1-failure-isolation", ck, "replica loop in "+engine.FuncName(fn), "a failing replica is skipped (continue); the loop is never left early", strings.Join(probs, "; "))
